@@ -40,6 +40,12 @@ def genRange {σ β : Type} : (lo n : Nat) → σ → (Nat → σ → Except PyE
   | _, 0, _, _ => .ok []
   | lo, n + 1, s, f => (f lo s).bind fun r => (genRange (lo + 1) n r.1 f).map (r.2 ++ ·)
 
+/-- `for i in range(lo, lo + n): <body>` with loop state `s`; the body may raise (translator tier T19) -/
+def forRangeE {σ : Type} (lo n : Nat) (s : σ) (f : Nat → σ → Except PyErr σ) : Except PyErr σ :=
+  match n with
+  | 0 => .ok s
+  | n + 1 => (f lo s).bind fun s1 => forRangeE (lo + 1) n s1 f
+
 /-- `arg_to_uint(description, value, default)` for an optional argument: `None` takes the default (which is range-checked like a
     given value); `None` without a default is a TypeError -/
 def argToUintOpt (x : Option Int) (dflt : Option Int) : Except PyErr Int :=
